@@ -149,6 +149,19 @@ def fixed_regressions():
         gvar("g1", BOOL, {"e": "or", "a": {"e": "bool", "b": True}, "b": prim("si.le", lit(SI, 5), lit(SI, -8))}),
         gvar("g3", SI, prim("si.neg", lit(SI, 4))),
         stmt(pr(var("g3"), var("g3")))]))
+    # R4/R5 (specification regressions): a halt (error, failed assertion) is raised as RuntimeError, so the `finally` parts
+    # of the enclosing try expressions run before the report is printed
+    for tag, stop in (("R4_error_unwinds_through_finally", {"e": "error", "msg": "boom"}),
+                      ("R5_assertion_unwinds_through_finally", {"e": "assert", "c": prim("si.lt", var("x"), lit(SI, 0))})):
+        boom = {"name": "boom", "oname": "boom", "ps": ["x"], "pts": [SI], "rt": SI, "pure": False,
+                "body": {"e": "seq", "t": SI, "es": [iff(prim("si.gt", var("x"), lit(SI, 3)), stop, {"e": "unit"}, UNIT), var("x")]}}
+        guard = {"name": "guard", "oname": "guard", "ps": ["y"], "pts": [SI], "rt": SI, "pure": False,
+                 "body": {"e": "try", "t": SI, "body": {"e": "call", "fi": 1, "args": [var("y")]},
+                          "hs": [{"exn": "Ex0", "ps": [], "body": lit(SI, 77)}],
+                          "fin": {"e": "seq", "t": UNIT, "es": [pr({"e": "str", "s": "fin"})]}}}
+        out.append(prog(tag, [stmt(pr({"e": "call", "fi": 2, "args": [lit(SI, 1)]})),
+                              stmt(pr({"e": "call", "fi": 2, "args": [lit(SI, 9)]})),
+                              stmt(pr({"e": "str", "s": "not reached"}))], funs=[boom, guard], exns=["Ex0"]))
     f4 = {"name": "f4", "ps": ["p5", "p7"], "pts": [SI, SI], "rt": SI, "pure": True,
           "body": {"e": "let", "x": "v8", "t": SI, "v": var("p5"), "body": {"e": "seq", "t": SI, "es": [
               {"e": "asg", "x": "v8", "v": iff(var("g3"), lit(SI, 13), lit(SI, 12), SI)},
